@@ -336,6 +336,18 @@ def handleMachine (st : DState) (ws : List String) : Option (DState × String) :
     match registerHook st.m.hooksRunning st.hooks (phase == "before") mn f with
     | some hooks => some ({ st with hooks := hooks }, "ok")
     | none => some (st, "err")
+  | ["hookdup", phase, mn, id, label, outcome, edit] =>
+    -- the callback of an earlier `hook` line (same id, label phase, outcome, edit) registered once more, in `phase` for `mn`
+    let e : Option (Fin 16 × BitVec 64) := match edit.splitOn "=" with
+      | [r, v] => match findIdx? gprNames64 r 16, parseHex? v with
+        | some i, some v => some (i, BitVec.ofNat 64 v)
+        | _, _ => none
+      | _ => none
+    let f := scriptedHook id label outcome e
+    if phase != "before" && phase != "after" then none else
+    match registerHook st.m.hooksRunning st.hooks (phase == "before") mn f with
+    | some hooks => some ({ st with hooks := hooks }, "ok")
+    | none => some (st, "err")
   | ["syscalls", l] => do
     let ns ← (l.splitOn ",").mapM String.toNat?
     match handleSyscalls st.m.hooksRunning st.hooks st.m.sys.registered ns with
